@@ -926,6 +926,9 @@ class SymArray:
             return c if c is not None else v
         if self.swapped:
             raise Unsupported("reading items of a byte-swapped array built from values")
+        if self.typecode == "d" and type(x) is SymNum and not x.is_int:
+            from .sym import SymFloat
+            return SymFloat(x.t)
         return x
 
     def __len__(self):
